@@ -629,13 +629,33 @@ func buildReplay(vc *VC, o *Obl, prop string) *ReplayFile {
 	rc := &replayCtx{vc: vc, sess: sess, pkg: vc.fn.Pkg.Pkg, refs: map[string]string{}, imports: map[string]string{}, budget: 3000}
 	// declare heap constants that the walk may need before sending the script: pre-walk types
 	rc.predeclare()
-	sess.send(vc.singleScript(o, nil))
-	line, ok := sess.readLine(40 * time.Second)
-	for ok && line != "sat" && line != "unsat" && line != "unknown" && line != "timeout" && !strings.HasPrefix(line, "(error") {
-		line, ok = sess.readLine(40 * time.Second)
+	script := vc.singleScript(o, nil)
+	script = strings.Replace(script, "(check-sat)\n", "", 1)
+	sess.send(script)
+	// prefer small models: bound the lengths of input slices/strings, relaxing step by step
+	sat := false
+	last := ""
+	for _, bound := range []int64{4, 40, 400, -1} {
+		sess.send("(push 1)")
+		if bound > 0 {
+			for _, c := range rc.sizeBounds(bound) {
+				sess.send("(assert " + c.String() + ")")
+			}
+		}
+		sess.send("(check-sat)")
+		line, ok := sess.readLine(40 * time.Second)
+		for ok && line != "sat" && line != "unsat" && line != "unknown" && line != "timeout" && !strings.HasPrefix(line, "(error") {
+			line, ok = sess.readLine(40 * time.Second)
+		}
+		last = line
+		if ok && line == "sat" {
+			sat = true
+			break
+		}
+		sess.send("(pop 1)")
 	}
-	if !ok || line != "sat" {
-		rf.Note = "model session did not reproduce sat: " + line
+	if !sat {
+		rf.Note = "model session did not reproduce sat: " + last
 		return rf
 	}
 	// inputs
@@ -868,4 +888,36 @@ func obsEqual(p obsPoint, got string) bool {
 	default:
 		return p.Predicted == got
 	}
+}
+
+// sizeBounds: constraints keeping the input's slices and strings short (for readable, replayable models).
+func (rc *replayCtx) sizeBounds(n int64) []*Term {
+	vc := rc.vc
+	var out []*Term
+	lim := vc.idx(n)
+	var walk func(t *Term, typ types.Type, d int)
+	walk = func(t *Term, typ types.Type, d int) {
+		if d > 2 {
+			return
+		}
+		switch u := typ.Underlying().(type) {
+		case *types.Slice:
+			out = append(out, vc.iCmp("<=", vc.slLen(t), lim, true))
+		case *types.Basic:
+			if isString(typ) {
+				out = append(out, vc.iCmp("<=", vc.strLen(t), lim, true))
+			}
+		case *types.Pointer:
+			if stt, ok := u.Elem().Underlying().(*types.Struct); ok {
+				for i := 0; i < stt.NumFields(); i++ {
+					key, _ := vc.fieldKey(u.Elem(), i)
+					walk(Select(vc.heapGet(vc.entry, key), t), stt.Field(i).Type(), d+1)
+				}
+			}
+		}
+	}
+	for i, p := range vc.fn.Params {
+		walk(vc.params[i], p.Type(), 0)
+	}
+	return out
 }
